@@ -3,8 +3,8 @@ from . import encoding
 
 
 def run(ck):
-    ck.explanation = """C27: verify_with_positions' four false-returning guards precede the fold; errors of the fold become false; final comparison with the root; position table of insert_at_position equals the specification and the circuit's (C03); circuit and native use the same MAX_DEPTH item; both from_unsorted siblings carry the three guards before hashing"""
-    ck.not_decided = ["""rank correctness of from_unsorted; circuit/native equivalence on values"""]
+    ck.explanation = """C27: verify_with_positions' four false-returning guards precede the fold; errors of the fold become false; final comparison with the root; position table of insert_at_position equals the specification and the circuit's (C03); circuit and native use the same MAX_DEPTH item; both from_unsorted copies (common and circuit) carry the three guards before hashing, and their per-level step sorts the node once before use, pushes the rank of the running hash, hashes the node into the running hash and takes the level's siblings from the node by index (no second comparison of hash values; the index-skipping copy loop is checked exactly when that is the form)"""
+    ck.not_decided = ["""that `sort` orders and `position` finds the first equal element (library semantics); circuit/native equivalence on values"""]
     ob = encoding.analyse27(ck)
     ob.emit(ck, "C27")
-    ck.floor("CMP", "encoding/obligations", len([1 for it in ob.items if "C27" in it[0]]), 9, "C27 obligations evaluated")
+    ck.floor("CMP", "encoding/obligations", len([1 for it in ob.items if "C27" in it[0]]), 13, "C27 obligations evaluated")
